@@ -12,6 +12,8 @@ CHECKS = {
          "The step relation is written from the statement (quota formulas, >=, transfer value, elimination tie rule); the code's rounds, over all inputs in the bound and all random branches, must be exactly such steps.", "5 C02"),
  "C07": ("TLC invariant DPC (all candidate subsets) on the bounded Droop model + the same invariant evaluated on every validated trace of the real STV/IRV",
          "An oracle that shares nothing with the implementation: decided exhaustively for the design in the bound, transferred to the code by trace validation and evaluated on planted-coalition profiles.", "5 C07"),
+ "C08": ("TLC: MC_Symmetry (the spec's building blocks commute with every candidate bijection) + trace validation of many concrete presentations of one abstract input run in subprocesses under different PYTHONHASHSEEDs",
+         "Anonymity/representation independence are built into the abstraction (bags over candidate sets), so each renamed / reordered / split / re-seeded presentation must project onto the single behaviour the spec prescribes, and onto the same trace as its siblings.", "5 C08"),
  "C09": ("TLC trace validation: after the recorded rounds, every query answer of a seeded random history must equal the answer Election.tla's recorded rounds imply (QueryClause), purity via snapshots",
          "Histories (with repetition, negative and out-of-range indices) are replayed on finished elections of every rule; TLC recomputes each answer from the rounds it has itself validated.", "5 C09"),
  "C10": ("TLC: probability-labelled actions (RandomOnlyWithTiebreak, ProbSum) + trace validation of recorded tiebreaks with exact conditional probabilities from exhaustive exploration of the code's random draws",
@@ -26,6 +28,8 @@ CHECKS = {
          "Declarative tiers decided on the bounded model; the code's margins, tiers and Condorcet answers compared exactly on exhaustive small and tournament-directed profiles.", "5 C06"),
  "C17": ("exact law of the code's random choices (all outcomes of a scripted RNG enumerated) validated by TLC against probability-labelled actions; ProbSum on the bounded model",
          "Distributional claims are decided exactly, not sampled: every step's conditional probability must equal the label of the matching spec action.", "5 C17"),
+ "C20": ("TLC: MC_Validation (decision table total, ok iff no precondition violated) + call-level trace validation of single-violation and boundary requests to every constructor / helper against Validation.tla",
+         "One named predicate per documented precondition; every request violates exactly one (smallest step and grossly, any ballot position) or sits on the accepted side of the boundary; the outcome class is compared by TLC.", "5 C20"),
  "C13": ("TLC trace validation of IRV/SNTV/SequentialRCV/TopTwo/Alaska runs against the compositions as defined in Election.tla",
          "The spec defines the aliases and composites as the documented compositions; recorded rounds must match them step by step on every path.", "5 C13"),
 }
